@@ -16,15 +16,15 @@ structure OrderOK (c : MCfg) : Prop where
 def fullFile (se : List Edit) : MFile := { recs := se, tail := .clean }
 
 /-- rewrite steps up to (excluding) the rename of CURRENT.tmp -/
-def rwPre (syncWrites : Bool) (n : Nat) (se : List Edit) : List Step :=
+def rwPre (c : MCfg) (syncWrites : Bool) (n : Nat) (se : List Edit) : List Step :=
   ([Step.create n] ++ (List.range ((encLens se - 1) / 4096)).map (fun i => Step.setRaw n (cutAt se ((i + 1) * 4096)))) ++
-  [.setRaw n (fullFile se)] ++ ((if syncWrites then [Step.sync n] else []) ++ [.close n]) ++ [.writeTmp n]
+  [.setRaw n (fullFile se)] ++ ((if syncWrites then [Step.sync n] else []) ++ [.close n]) ++ tmpPart c syncWrites n
 
 def rwPost (cur n : Nat) : List Step :=
   [Step.close cur, .openrw n] ++ (if cur ≠ n then [Step.remove cur] else [])
 
 theorem rewriteBody_good (c : MCfg) (ho : OrderOK c) (sw : Bool) (cur n : Nat) (se : List Edit) :
-    rewriteBody c sw cur n se = rwPre sw n se ++ [.renameTmp] ++ rwPost cur n := by
+    rewriteBody c sw cur n se = rwPre c sw n se ++ [.renameTmp] ++ rwPost cur n := by
   simp [rewriteBody, rwPre, rwPost, snapshotWriteSteps, switchCurrentSteps, ho.cas, ho.roc, ho.cvr, fullFile,
     List.append_assoc]
 
@@ -35,11 +35,27 @@ theorem steps_noop (ss : List Step) (h : ∀ s ∈ ss, ∀ d : Disk, d.step s = 
     rw [steps_cons, h s List.mem_cons_self d]
     exact ih (fun s' hs' => h s' (List.mem_cons_of_mem _ hs')) d
 
-theorem rwPre_harmless (sw : Bool) {cur n : Nat} (hn : n ≠ cur) (se : List Edit) :
-    ∀ s ∈ rwPre sw n se, Harmless cur s ∧ NoAppend s := by
+theorem tmpPart_harmless (c : MCfg) (sw : Bool) (n k : Nat) :
+    ∀ s ∈ tmpPart c sw n, Harmless k s ∧ NoAppend s := by
   intro s hs
-  simp only [rwPre, List.mem_append, List.mem_cons, List.mem_map, List.mem_range, List.not_mem_nil, or_false] at hs
-  rcases hs with (((hs | hs) | hs) | hs) | hs
+  cases h : c.currentTmpSynced <;> cases sw <;> simp [tmpPart, h] at hs
+  · subst hs; exact ⟨trivial, trivial⟩
+  · subst hs; exact ⟨trivial, trivial⟩
+  · rcases hs with hs | hs | hs <;> (subst hs; exact ⟨trivial, trivial⟩)
+  · rcases hs with hs | hs | hs | hs <;> (subst hs; exact ⟨trivial, trivial⟩)
+
+theorem steps_tmpPart (c : MCfg) (sw : Bool) (n : Nat) (d : Disk) :
+    d.steps (tmpPart c sw n) = { d with tmp := some n } := by
+  cases h : c.currentTmpSynced <;> cases sw <;> simp [tmpPart, h, Disk.steps, Disk.step]
+
+theorem rwPre_harmless (c : MCfg) (sw : Bool) {cur n : Nat} (hn : n ≠ cur) (se : List Edit) :
+    ∀ s ∈ rwPre c sw n se, Harmless cur s ∧ NoAppend s := by
+  intro s hs
+  unfold rwPre at hs
+  rcases List.mem_append.mp hs with hs | hs
+  case inr => exact tmpPart_harmless c sw n cur s hs
+  simp only [List.mem_append, List.mem_cons, List.mem_map, List.mem_range, List.not_mem_nil, or_false] at hs
+  rcases hs with ((hs | hs) | hs) | hs
   · subst hs; exact ⟨hn, trivial⟩
   · obtain ⟨i, _, rfl⟩ := hs; exact ⟨hn, trivial⟩
   · subst hs; exact ⟨hn, trivial⟩
@@ -48,7 +64,6 @@ theorem rwPre_harmless (sw : Bool) {cur n : Nat} (hn : n ≠ cur) (se : List Edi
       · simp at hs
       · simp at hs; subst hs; exact ⟨trivial, trivial⟩
     · subst hs; exact ⟨trivial, trivial⟩
-  · subst hs; exact ⟨trivial, trivial⟩
 
 theorem rwPost_harmless {cur n : Nat} (hn : n ≠ cur) : ∀ s ∈ rwPost cur n, Harmless n s ∧ NoAppend s := by
   intro s hs
@@ -59,17 +74,17 @@ theorem rwPost_harmless {cur n : Nat} (hn : n ≠ cur) : ∀ s ∈ rwPost cur n,
   · subst hs; exact ⟨trivial, trivial⟩
   · subst hs; exact ⟨hc, trivial⟩
 
-theorem pre_end_aux (A B : List Step) (hB : ∀ s ∈ B, ∀ d : Disk, d.step s = d) (n : Nat) (F : MFile) (d : Disk) :
-    (d.steps (A ++ [Step.setRaw n F] ++ B ++ [Step.writeTmp n])).tmp = some n ∧
-    (d.steps (A ++ [Step.setRaw n F] ++ B ++ [Step.writeTmp n])).file? n = some F := by
-  rw [steps_append, steps_append, steps_append, steps_noop B hB]
+theorem pre_end_aux (c : MCfg) (sw : Bool) (A B : List Step) (hB : ∀ s ∈ B, ∀ d : Disk, d.step s = d) (n : Nat) (F : MFile) (d : Disk) :
+    (d.steps (A ++ [Step.setRaw n F] ++ B ++ tmpPart c sw n)).tmp = some n ∧
+    (d.steps (A ++ [Step.setRaw n F] ++ B ++ tmpPart c sw n)).file? n = some F := by
+  rw [steps_append, steps_append, steps_append, steps_noop B hB, steps_tmpPart]
   generalize d.steps A = d0
   simp only [Disk.steps, List.foldl_cons, List.foldl_nil, Disk.step]
   exact ⟨trivial, file_setFile_self d0 n _⟩
 
 /-- the disk right before the rename: CURRENT.tmp names the new file, which is complete -/
-theorem rwPre_end (sw : Bool) (n : Nat) (se : List Edit) (d : Disk) :
-    (d.steps (rwPre sw n se)).tmp = some n ∧ (d.steps (rwPre sw n se)).file? n = some (fullFile se) := by
+theorem rwPre_end (c : MCfg) (sw : Bool) (n : Nat) (se : List Edit) (d : Disk) :
+    (d.steps (rwPre c sw n se)).tmp = some n ∧ (d.steps (rwPre c sw n se)).file? n = some (fullFile se) := by
   unfold rwPre
   apply pre_end_aux
   intro s hs d'
@@ -89,21 +104,21 @@ theorem rewrite_images (c : MCfg) (ho : OrderOK c) (sw : Bool) {cur n : Nat} (hn
   rw [rewriteBody_good c ho]
   have hstat : ∀ s ∈ stats, Harmless cur s ∧ NoAppend s := by
     intro s hs; obtain ⟨k, rfl⟩ := hst s hs; exact ⟨trivial, trivial⟩
-  have h1 : ∀ s ∈ stats ++ rwPre sw n se, Harmless cur s ∧ NoAppend s := by
+  have h1 : ∀ s ∈ stats ++ rwPre c sw n se, Harmless cur s ∧ NoAppend s := by
     intro s hs
     rcases List.mem_append.mp hs with hs | hs
     · exact hstat s hs
-    · exact rwPre_harmless sw hn se s hs
+    · exact rwPre_harmless c sw hn se s hs
   -- phase 1: up to the rename, CURRENT names the untouched old manifest
-  obtain ⟨hi1, he1⟩ := stepImages_inv (fun d => Points d cur f) (stats ++ rwPre sw n se)
+  obtain ⟨hi1, he1⟩ := stepImages_inv (fun d => Points d cur f) (stats ++ rwPre c sw n se)
     (fun s hs d' hd' => points_step (h1 s hs).1 hd') d hp a i
-  have hassoc : stats ++ (rwPre sw n se ++ [Step.renameTmp] ++ rwPost cur n) =
-      (stats ++ rwPre sw n se) ++ ([Step.renameTmp] ++ rwPost cur n) := by simp [List.append_assoc]
+  have hassoc : stats ++ (rwPre c sw n se ++ [Step.renameTmp] ++ rwPost cur n) =
+      (stats ++ rwPre c sw n se) ++ ([Step.renameTmp] ++ rwPost cur n) := by simp [List.append_assoc]
   rw [hassoc]
   -- the rename
-  have hmid := rwPre_end sw n se (d.steps stats)
+  have hmid := rwPre_end c sw n se (d.steps stats)
   rw [← steps_append] at hmid
-  generalize hd1 : d.steps (stats ++ rwPre sw n se) = d1 at he1 hmid
+  generalize hd1 : d.steps (stats ++ rwPre c sw n se) = d1 at he1 hmid
   have hp2 : Points (d1.step .renameTmp) n (fullFile se) := by
     simp only [Disk.step, hmid.1]
     exact ⟨rfl, hmid.2⟩
